@@ -386,7 +386,8 @@ impl Program {
                     name: loop_count_reference.name.clone(),
                     size: Vector {
                         data_type: ScalarType::Integer,
-                        length: 1,
+                        // Large enough to hold the element the given reference points at.
+                        length: loop_count_reference.index.saturating_add(1),
                     },
                     sharing: None,
                 }),
@@ -403,10 +404,8 @@ impl Program {
             .chain(vec![
                 Instruction::Arithmetic(Arithmetic {
                     operator: ArithmeticOperator::Subtract,
-                    destination: MemoryReference {
-                        name: loop_count_reference.name.clone(),
-                        index: 0,
-                    },
+                    // Decrement the very element that is initialised above and tested below.
+                    destination: loop_count_reference.clone(),
                     source: ArithmeticOperand::LiteralInteger(1),
                 }),
                 Instruction::JumpWhen(JumpWhen {
